@@ -54,7 +54,9 @@ try:
     tr = subprocess.run('/venv/bin/python -m pytest -q -p no:cacheprovider tests 2>&1', shell=True, capture_output=True, text=True, env=env, cwd=scratch)
     clean = re.sub(r'\x1b\[[0-9;]*m', '', tr.stdout)
     failed = sorted({re.sub(r' - .*', '', l) for l in clean.splitlines() if l.startswith(('FAILED', 'ERROR'))})
-    base = sorted({l.strip() for l in open('/tmp/seed/baseline_failures.txt') if l.startswith(('FAILED', 'ERROR'))}) if os.path.exists('/tmp/seed/baseline_failures.txt') else None
+    bfile = os.path.join(os.path.dirname(seed_dir.rstrip('/')), 'baseline_failures.txt')
+    base = sorted({l.strip() for l in open(bfile) if l.startswith(('FAILED', 'ERROR'))}) if os.path.exists(bfile) else None
+    assert base is not None, 'baseline failure list not found next to the seed directory'
     meta['suite_summary'] = clean.strip().splitlines()[-1] if clean.strip() else ''
     meta['suite_new_failures'] = [f for f in failed if base is not None and f not in base]
     meta['suite_seconds'] = round(time.time() - t)
